@@ -24,6 +24,7 @@ from vgi_rpc.external import (
 )
 from vgi_rpc.log import Level, Message
 from vgi_rpc.metadata import (
+    ERROR_KIND_KEY,
     LOG_EXTRA_KEY,
     LOG_LEVEL_KEY,
     LOG_MESSAGE_KEY,
@@ -604,21 +605,26 @@ def _dispatch_log_or_error(
             wire_batch_logger.debug("Classify batch: zero-row, no log keys -> data")
         return False
 
-    level_str = level_bytes.decode()
-    message_str = message_bytes.decode()
+    # Log metadata comes from the peer: nothing in it may fail the call.  Text
+    # is decoded leniently, and an ``extra`` payload that is not a JSON object
+    # (or does not parse at all) is simply not used.
+    level_str = level_bytes.decode(errors="replace")
+    message_str = message_bytes.decode(errors="replace")
 
     # Extract extra info (traceback, exception_type, etc.)
     raw_extra_data: dict[str, object] = {}
     raw_extra = custom_metadata.get(LOG_EXTRA_KEY)
     if raw_extra is not None:
-        with contextlib.suppress(json.JSONDecodeError):
-            raw_extra_data = json.loads(raw_extra.decode())
+        with contextlib.suppress(ValueError, RecursionError):
+            parsed_extra = json.loads(raw_extra.decode(errors="replace"))
+            if isinstance(parsed_extra, dict):
+                raw_extra_data = parsed_extra
 
     # Extract request_id from batch metadata
     request_id_bytes = custom_metadata.get(REQUEST_ID_KEY)
     request_id = ""
     if request_id_bytes is not None:
-        request_id = request_id_bytes.decode()
+        request_id = request_id_bytes.decode(errors="replace")
 
     if wire_batch_logger.isEnabledFor(logging.DEBUG):
         wire_batch_logger.debug(
@@ -631,18 +637,28 @@ def _dispatch_log_or_error(
     if level_str == Level.EXCEPTION.value:
         error_type = str(raw_extra_data.get("exception_type", level_str))
         traceback_str = str(raw_extra_data.get("traceback", ""))
-        raise RpcError(error_type, message_str, traceback_str, request_id=request_id)
+        error_kind_bytes = custom_metadata.get(ERROR_KIND_KEY)
+        error_kind = error_kind_bytes.decode(errors="replace") if error_kind_bytes is not None else ""
+        raise RpcError(error_type, message_str, traceback_str, request_id=request_id, error_kind=error_kind)
 
     # Non-exception log message → invoke callback
+    try:
+        level = Level(level_str)
+    except ValueError:
+        # A level this client does not know: ignore the message.
+        return True
     # Coerce all extra values to str for Message(**extra)
-    extra: dict[str, str] = {k: str(v) for k, v in raw_extra_data.items()}
+    extra: dict[str, object] = {str(k): str(v) for k, v in raw_extra_data.items()}
     # Extract server_id from top-level metadata into extra
     server_id_bytes = custom_metadata.get(SERVER_ID_KEY)
     if server_id_bytes is not None:
-        extra["server_id"] = server_id_bytes.decode()
+        extra["server_id"] = server_id_bytes.decode(errors="replace")
     if request_id:
         extra["request_id"] = request_id
-    msg = Message(Level(level_str), message_str, **extra)
+    # Assigned rather than passed as **kwargs: a peer is free to name an extra
+    # field "level", "message" or "self".
+    msg = Message(level, message_str)
+    msg.extra = extra or None
     if on_log is not None:
         on_log(msg)
     return True
